@@ -60,7 +60,7 @@ def contracts():
         pre=['0 < divisor <= i128::MAX as u128', 'rem < divisor', 'rem > 0 ==> quot < i128::MAX'],
         post=[('round_quot.round_div',
                'r == round_div(quot * (divisor as int) + rem as int, divisor as int, eff_mode(mode))')],
-        entry='broadcast use lemma_shl1; lemma_floor_form(quot as int, rem as int, divisor as int);')
+        entry='broadcast use lemma_shl1, lemma_i128_parity_bit; lemma_floor_form(quot as int, rem as int, divisor as int);')
     d['rounding::i128_div_rounded'] = C(
         pre=['divisor != 0', 'divisor < 0 ==> (divident > i128::MIN && divisor > i128::MIN)'],
         post=[('i128_div_rounded.round_div',
